@@ -67,6 +67,10 @@ class ArmEval:
             return (op, a, b)
         if k == "Unary" and e["op"] == "Not":
             return ("Not", self.ex(e["e"]))
+        if k == "If" and e.get("else") is not None:
+            return ("ite", self.ex(e["cond"]), self.ex(e["then"]), self.ex(e["else"]))
+        if k == "Block" and not e.get("stmts") and e.get("expr") is not None:
+            return self.ex(e["expr"])
         if k == "Call":
             f = H.peel(e["f"])
             name = H.path_canon(f) if f.get("k") == "Path" else H.canon(f)
@@ -199,6 +203,8 @@ def ev(e, val):
         return val[("o", e[1])]
     if k == "Not":
         return not ev(e[1], val)
+    if k == "ite":
+        return ev(e[2], val) if ev(e[1], val) else ev(e[3], val)
     a, b = ev(e[1], val), ev(e[2], val)
     if k in ("Add", "WAdd"):
         return a + b
@@ -247,6 +253,8 @@ def show(e):
         return e[1]
     if k == "Not":
         return "!" + show(e[1])
+    if k == "ite":
+        return "if %s {%s} else {%s}" % (show(e[1]), show(e[2]), show(e[3]))
     return "%s(%s, %s)" % (k, show(e[1]), show(e[2]))
 
 
